@@ -4,7 +4,12 @@
    attractors in the intersection of skip nodes are lost, so the full statement is false of the faithful model.
    What is proved: the structural part for skip operations (invariants, cache clearing), and the exactness of
    the predicates (check_seeds / check_seeds_sound run on the implementation's seeds against brute-force
-   attractors).  The exclusion rule of skip nodes is emulated by the harness (verdict kind 'skiprule').
+   attractors).  SkipRule.v models the documented exclusion rule under an IDEAL engine (every query returns exactly
+   the attractors of the node outside the avoided spaces): C05_refuted exhibits, inside Coq, a network and history on
+   which 8 of 16 attractors are represented by no node although every skip node follows the rule -- so the loss is a
+   property of the rule, not of the candidate search; the same history is replayed on the code (corpus/C05.jsonl) and
+   the model's per-node seed counts are compared with the code's on every modelable run.  ideal_seeds_sound is the
+   half of the statement that survives (no spurious seeds).
 
    This file contains only restatements closed by `exact` (statements produced by Coq's own
    `Check` of the library lemma) plus non-vacuity Examples, each followed by Print Assumptions. *)
@@ -12,7 +17,8 @@ From Coq Require Import List Bool Arith NArith Lia Relations Permutation.
 Import ListNotations.
 From BB Require Import BN Brute SpaceFacts TrapFacts PercolateFacts AttractorFacts Diagram Invariants Checks Filter
   Strict PetriNet Control Meta FilterFacts PetriNetFacts TrappistFacts DiagramStruct DiagramSem1 DiagramCache
-  DiagramDepth DiagramComplete Termination ControlFacts MetaFacts Candidates StrictFacts MinExpandFacts CandidatesFacts SymbolicTest SymbolicTestFacts Signed ReductionFacts ControlFacts2 Main Blocks BlocksFacts ObsFacts OwnerFacts CandidatesTerm.
+  DiagramDepth DiagramComplete Termination ControlFacts MetaFacts Candidates StrictFacts MinExpandFacts CandidatesFacts SymbolicTest SymbolicTestFacts Signed ReductionFacts ControlFacts2 Main Blocks BlocksFacts ObsFacts OwnerFacts CandidatesTerm
+  PartialOwner BlockMath BlockComplete ASeeds ASeedsFacts LogChecks SkipRule SkipRuleFacts Names NamesFacts Perm PermFacts.
 
 Theorem C05_skip_ops_keep_wellformed : forall (fuel : nat) (N : net) (cfg : config) (d : sd) (o : op), SWF N d -> SWF N (fst (step fuel N cfg d o)).
 Proof. exact step_SWF. Qed.
@@ -34,9 +40,31 @@ Proof. exact step_EdgeStrict. Qed.
 Theorem C05_node_attractors_complete : forall (N : net) (S : space) (motifs : list space) (A : state -> Prop), node_attr N S motifs A -> exists L : list state, In L (node_attractors_b N S motifs) /\ (forall s : state, A s <-> In s L).
 Proof. exact node_attractors_b_complete. Qed.
 
+(* KNOWN FINDING D4: the full statement fails on the faithful model *)
+Theorem C05_refuted_on_the_model : exists L : list state, In L (attractors_b d4_net) /\ (forall i : nat, i < size d4_diagram -> exists l : list state, nth i d4_cache None = Some l) /\ (forall (i : nat) (l : list state) (s : state), nth i d4_cache None = Some l -> In s l -> mem_state s L = false).
+Proof. exact C05_refuted. Qed.
+
+Theorem C05_refuted_attractor : exists A : state -> Prop, attractor d4_net A /\ (forall (i : nat) (l : list state) (s : state), nth i d4_cache None = Some l -> In s l -> ~ A s).
+Proof. exact C05_refuted_attractor. Qed.
+
+(* 26 nodes, 16 attractors, 8 lost, none reported twice *)
+Theorem C05_witness_counts : size d4_diagram = 26 /\ length (attractors_b d4_net) = 16 /\ length (lost (attractors_b d4_net) d4_cache) = 8 /\ forallb (fun A : list state => times_represented d4_cache A <=? 1) (attractors_b d4_net) = true.
+Proof. exact d4_counts. Qed.
+
+Theorem C05_ideal_seeds_sound : forall (N : net) (d : sd) (c : cache) (i : nat) (s : state), In s (ideal_seeds (attractors_b N) d c i) -> exists L : list state, In L (attractors_b N) /\ inside_b L (n_space (get d i)) = true /\ s = hd [] L.
+Proof. exact ideal_seeds_sound. Qed.
+
+Theorem C05_rule_only_for_skip_nodes : forall (d : sd) (c : cache) (i : nat), n_skip (get d i) = false -> avoid_of d c i = (if n_exp (get d i) then out_motifs d i else []).
+Proof. exact no_skip_no_exclusion. Qed.
+
 Print Assumptions C05_skip_ops_keep_wellformed.
 Print Assumptions C05_skip_ops_keep_faithful.
 Print Assumptions C05_skip_ops_clear_caches.
 Print Assumptions C05_check_seeds_ok.
 Print Assumptions C05_edge_strict.
 Print Assumptions C05_node_attractors_complete.
+Print Assumptions C05_refuted_on_the_model.
+Print Assumptions C05_refuted_attractor.
+Print Assumptions C05_witness_counts.
+Print Assumptions C05_ideal_seeds_sound.
+Print Assumptions C05_rule_only_for_skip_nodes.
